@@ -28,12 +28,17 @@ let () =
     match split_ws line with
     | id :: enc :: ver :: rest when String.length id > 0 && id.[0] <> '#' ->
         (try
-          let k = match enc with
-            | "UTF-8" -> EncUtf8 | "UTF-16" -> EncUtf16 | "ISO-8859-1" -> EncLatin1 | "US-ASCII" -> EncAscii
-            | _ -> failwith "encoding" in
           let v11 = (ver = "1.1") in
           let rest = (match rest with "-L" :: r -> r | r -> r) in
-          (match serialize_fast k v11 (ascii ver) (ascii enc) (events rest) with
+          let r = match enc with
+            | "UTF-8" -> serialize_fast EncUtf8 v11 (ascii ver) (ascii enc) (events rest)
+            | "UTF-16" -> serialize_fast EncUtf16 v11 (ascii ver) (ascii enc) (events rest)
+            | "ISO-8859-1" -> serialize_fast EncLatin1 v11 (ascii ver) (ascii enc) (events rest)
+            | "US-ASCII" -> serialize_fast EncAscii v11 (ascii ver) (ascii enc) (events rest)
+            (* transcoder-backed writer, every code point representable *)
+            | "UTF-32" | "UTF8" -> serialize_other_fast rep_all v11 (ascii ver) (ascii enc) (events rest)
+            | _ -> failwith "encoding" in
+          (match r with
            | Ok l -> Printf.printf "%s ok %s\n" id (token_of_u16 l)
            | Oob -> Printf.printf "%s oob\n" id
            | Thrown c -> Printf.printf "%s err %d\n" id (int_of_n c))
